@@ -240,6 +240,18 @@ example : normaliseL livePCfg minimalHtml
 example : build livePCfg (emitRL minimalHtml [.tag (tg "br" [] true) [.str .navigable (ofS "x")]]) =
     [.tag (tg "br" [] true) [], .str .navigable (ofS "x")] := by decide
 
+/-- The theorem is for every builder configuration. With `empty_element_tags=set()` no name is void: a `br` with a child is
+    representable and comes back with its child; with `empty_element_tags=None` every name is void (`PCfg.isVoid`), an
+    element with a child is not representable and the parser returns the child as a sibling. -/
+example : let p := { livePCfg with voidAll := false, voidTags := [] }
+    Representable p minimalHtml [.tag (tg "br") [.str .navigable (ofS "x")]] ∧
+    build p (emitRL minimalHtml [.tag (tg "br") [.str .navigable (ofS "x")]]) = [.tag (tg "br") [.str .navigable (ofS "x")]] := by
+  decide
+example : let p := { livePCfg with voidAll := true, voidTags := [] }
+    ¬ Representable p minimalHtml [.tag (tg "p") [.str .navigable (ofS "x")]] ∧
+    build p (emitRL minimalHtml [.tag (tg "p") [.str .navigable (ofS "x")]]) = [.tag (tg "p" [] true) [], .str .navigable (ofS "x")] := by
+  decide
+
 /-! ## 5. the second round trip -/
 
 /-- **Refutation of unrestricted idempotence** (a genuine defect of the code, recorded as known finding
